@@ -211,6 +211,19 @@ func checkC08(r *Run) {
 			}
 		}
 	}
+	// versions (and URIs) that begin with, end in or contain the usual version string: tokens all the same - always
+	// delivered at every cut
+	for _, v := range []string{"SIP/2.0.1", "SIP/2.01", "SIP/2.0-draft", "SIP/2.0SIP/2.0", "XSIP/2.0", "XSIP/2.0Y", "SIP/2.", "SIP/2", "SIP/2.0\x80", "SIP/2.0/UDP", "sip/2.0.0"} {
+		for _, m := range []string{"INVITE", "FOO"} {
+			for _, u := range []string{"sip:a@b", "SIP/2.0", v} {
+				for _, t := range terms {
+					for _, via := range []bool{false, true} {
+						cases = append(cases, flCase{Kind: "request", A: m, B: u, C: v, Term: t, ViaMsg: via, all: true})
+					}
+				}
+			}
+		}
+	}
 	// long unknown methods that END in a known method name (and start with one): the numeric method must come from
 	// the whole token whatever the chunking - always delivered at every cut
 	for m := range mthTable {
